@@ -39,6 +39,42 @@ def showDisk (d : Disk) : String :=
 def srvReq (st : SrvD) : List String → SrvD × String
   | ["reset"] => ({}, "ok")
   | ["disk"] => (st, "ok " ++ showDisk st.disk)
+  | ["crash", k, "config", c] => match parseNat k, parseNat c with
+    -- kill the server after k file-system mutations of the request, then restart: disk and the new echo
+    | some k, some c =>
+      let (s1, _) := if st.alive then (st, []) else reconnectSlow SSEPy.Generated.serverProgram st
+      match s1.conn with
+      | some conn =>
+        let r := handleMsg SSEPy.Generated.serverProgram s1.disk conn (.config (some c)) (some k)
+        let s2 : SrvD := { disk := r.1, conn := none, alive := false }      -- process death: no cleanup runs
+        let (s3, o) := connectOn SSEPy.Generated.serverProgram s2.disk s2.disk
+        (s3, "ok " ++ showDisk r.1 ++ " | " ++ showSOuts o)
+      | none => (st, "err no-connection")
+    | _, _ => (st, bad)
+  | ["crash", k, "upload", e] => match parseNat k, parseNat e with
+    | some k, some e =>
+      let (s1, _) := if st.alive then (st, []) else reconnectSlow SSEPy.Generated.serverProgram st
+      match s1.conn with
+      | some conn =>
+        let r := handleMsg SSEPy.Generated.serverProgram s1.disk conn (.upload e) (some k)
+        let s2 : SrvD := { disk := r.1, conn := none, alive := false }
+        let (s3, o) := connectOn SSEPy.Generated.serverProgram s2.disk s2.disk
+        (s3, "ok " ++ showDisk r.1 ++ " | " ++ showSOuts o)
+      | none => (st, "err no-connection")
+    | _, _ => (st, bad)
+  | ["fsops", h] =>
+    -- the primitive mutations of one handler, as the interposer would log them
+    let p := SSEPy.Generated.serverProgram
+    let show1 (o : FsOp) : Option String := match o with
+      | .mkdir | .mkdirExistOk => some "mkdir" | .openTrunc f => some ("open " ++ f) | .write f => some ("write " ++ f)
+      | .openTmp f => some ("open " ++ f ++ ".tmp") | .writeTmp f => some ("write " ++ f ++ ".tmp")
+      | .replace f => some ("replace " ++ f) | .unlink f => some ("unlink " ++ f) | .rmtree => some "rmtree"
+      | .unknown s => some ("UNKNOWN:" ++ s) | _ => none
+    let fsOf (e : Eff) : List FsOp := match e with
+      | .mkdirSid => p.fmCreateSidFolder | .writeConfig => p.fmWriteConfig | .writeMeta => p.fmWriteMeta
+      | .writeEdb => p.fmWriteEdb | _ => []
+    let effs := if h == "config" then p.handleConfig else if h == "upload" then p.handleUpload else p.handleSearch
+    (st, "ok " ++ ",".intercalate ((effs.flatMap fsOf).filterMap show1))
   | "ev" :: rest => match parseEv rest with
     | some ev => let (s', o) := stepEv SSEPy.Generated.serverProgram st ev; (s', "ok " ++ showSOuts o)
     | none => (st, bad)
